@@ -22,7 +22,7 @@ Fixpoint early_panic (n:N) (rs:list rout) : bool :=
 
 Definition spec (k:rcase) (o:robs) : option (N * tape) :=
   let '(good, st) := scan_stream (server (k_cfg k)) (negotiated (k_cfg k)) (full_stream k) in
-  if early_panic 0 (o_res o) then Some (20, []) else
+  if early_panic 0 (o_res o) then Some (24, []) else
   match st with
   | SViolation _ | SBadLen => Some (97, [])
   | _ =>
